@@ -125,7 +125,10 @@ def streams(tier, rng, P, only=None, cases=None):
             cs.append(dict(req="compile2 %s %s" % (hx(a), hx(b)), src=a, plain=b, show=a, changes=1, key="mfixed%d" % j))
         # a bar line or blanks between a note and its tie mark: the same tie (`c|&c`, `c4 | &c4`)
         for j, (a, b) in enumerate([("l4 c|&c d", "l4 c&c d"), ("l4 c4 | &c4 d", "l4 c4&c4 d"), ("Slur(0,24) l4 c | &e g", "Slur(0,24) l4 c&e g"), ("l8 c &c|&c d", "l8 c&c&c d"),
-                                    ("Slur(1) l4 c|&e|&g a", "Slur(1) l4 c&e&g a"), ("Slur(2,10) l4 e | &f g", "Slur(2,10) l4 e&f g"), ("l4 c8.|&c16 d", "l4 c8.&c16 d")]):
+                                    ("Slur(1) l4 c|&e|&g a", "Slur(1) l4 c&e&g a"), ("Slur(2,10) l4 e | &f g", "Slur(2,10) l4 e&f g"), ("l4 c8.|&c16 d", "l4 c8.&c16 d"),
+                                    # the documented names of the modes are the modes
+                                    ("Slur(SLUR_ALPE) l4 c&e&g a", "Slur(3) l4 c&e&g a"), ("Slur(SLUR_GATE,10) l4 c&e&g a", "Slur(2,10) l4 c&e&g a"), ("Slur(SLUR_BEND) l4 c&e g", "Slur(1) l4 c&e g"),
+                                    ("Slur(SLUR_PORT,24) l4 c&e g", "Slur(0,24) l4 c&e g"), ("Slur(SLUR_ALPE,24) l4 c&d e", "Slur(3,24) l4 c&d e")]):
             cs.append(dict(req="compile2 %s %s" % (hx(a), hx(b)), src=a, plain=b, show=a, changes=1, same=True, key="mbar%d" % j))
         # a slur that only rises (falls) never bends below (above) the centre, however wide the interval: at the end of the 14-bit range the bend stays there
         for j, (a, b, d) in enumerate([("l4 Slur(1) c&>c n100", "l4 Slur(1) c >c n100", 1), ("Slur(1,0) l4 c&g&>e&>e n100", "Slur(1,0) l4 c g >e >e n100", 1),
@@ -137,7 +140,7 @@ def streams(tier, rng, P, only=None, cases=None):
         st, f = impl
         if st != "ok": return ("violation", "tied program did not compile: " + st)
         if c.get("same"):
-            return ("violation", "a bar line / blank before the tie mark changed the tie: %r vs %r" % (c["src"], c["plain"])) if f["bin1"] != f["bin2"] else None
+            return ("violation", "two spellings of the same tied text (a bar line / blank before the tie mark, a named mode) give different output: %r vs %r" % (c["src"], c["plain"])) if f["bin1"] != f["bin2"] else None
         ta, tb_ = smf_events(f["bin1"]), smf_events(f["bin2"])
         if ta is None or tb_ is None or len(ta) != len(tb_): return ("violation", "tied and plain program give different numbers of tracks")
         for ti, (a, b) in enumerate(zip(ta, tb_)):
